@@ -389,6 +389,7 @@ func registerModels(e *Engine) {
 	registerVerifAPI(e)
 	registerTimeModels(e)
 	registerRegexpModels(e)
+	registerJSONDecoderModel(e)
 	registerCookieModel(e)
 	registerCompressModels(e)
 	registerStringModels(e)
